@@ -588,3 +588,81 @@ Definition enc_run (r : list Z * outcome) : list Z :=
   | (_, Unmodelled) => [2; 99]
   | (_, OutOfFuel) => [3]
   end.
+
+(* ------------------------------------------------------------------ sessions: several commands in a row *)
+
+(* The interpreter object lives on between commands: variables, stacks, ON ERROR line and the error
+   registers are what the last command left.  `after_halt` is the state a program stop leaves behind:
+     - an error that is not trapped (trap_error, else branch): ERR, ERL set, error_handle_mode := False;
+       error_resume and the stacks stay as they are;
+     - END (implementation.end_): error_handle_mode := False, error_resume := None;
+     - end of the program inside a handler (No RESUME) and ON ERROR GOTO 0 inside a handler end in trap_error's
+       else branch as well (the latter after on_error := 0);
+     - falling off the program or the direct line changes nothing. *)
+Definition stopped_state (st : state) (c l : Z) : state :=
+  let d := ds st in
+  set_ds st {| env := env d; err := c; erl := l; onerr := onerr d; handling := false;
+               resume_at := resume_at d; susp := susp d |}.
+
+Definition after_halt (code : list stmt) (st : state) : state :=
+  let d := ds st in
+  match pstep code st with
+  | PRaise st' c epos => stopped_state st' c (line_of code epos)
+  | PGo _ _ => st
+  | PHalt _ =>
+      match nth_error code (pc st) with
+      | Some SEnd =>
+          set_ds st {| env := env d; err := err d; erl := erl d; onerr := onerr d; handling := false;
+                       resume_at := None; susp := susp d |}
+      | Some SEndProg =>
+          match resume_at d with
+          | Some _ => stopped_state st flow_E_NO_RESUME (line_of code (Nat.pred (pc st)))
+          | None => st
+          end
+      | Some (SOnErrorGoto _) =>
+          set_ds st {| env := env d; err := err d; erl := erl d; onerr := 0; handling := false;
+                       resume_at := resume_at d; susp := false |}
+      | _ => st
+      end
+  end.
+
+(* run, also returning the state that is left behind *)
+Fixpoint run_st (code : list stmt) (fuel : nat) (st : state) : list Z * outcome * state :=
+  match fuel with
+  | O => ([], OutOfFuel, st)
+  | S f =>
+      match step code st with
+      | Halt o => ([], o, after_halt code st)
+      | Go st' out => let '(t, o, s) := run_st code f st' in (out ++ t, o, s)
+      end
+  end.
+
+(* a command typed at the prompt: RUN, or a direct line *)
+Inductive command := CRun | CDirect (line : list stmt).
+
+(* RUN: variables, stacks, error registers and ON ERROR line are cleared (the suspension of soft math errors
+   is not); a direct line: everything stays, execution starts at its first statement *)
+Definition start_command (prog : list stmt) (st : state) (c : command) : list stmt * state :=
+  match c with
+  | CRun =>
+      (prog ++ [SEndProg],
+       {| pc := 0; fors := []; whiles := []; gosubs := [];
+          ds := {| env := []; err := 0; erl := 0; onerr := 0; handling := false; resume_at := None;
+                   susp := susp (ds st) |} |})
+  | CDirect line => (prog ++ SEndProg :: line, set_pc st (S (length prog)))
+  end.
+
+Definition enc_run_sep (r : list Z * outcome) : list Z := enc_run r ++ [55555].
+
+Fixpoint run_session (prog : list stmt) (cmds : list command) (fuel : nat) (st : state) : list Z :=
+  match cmds with
+  | [] => []
+  | c :: rest =>
+      let (code, st0) := start_command prog st c in
+      let '(t, o, st') := run_st code fuel st0 in
+      match o with
+      | OutOfFuel => enc_run (t, o)
+      | Unmodelled => enc_run (t, o)
+      | _ => enc_run_sep (t, o) ++ run_session prog rest fuel st'
+      end
+  end.
